@@ -448,6 +448,25 @@ def stage_falsy_and_order_sweep(ctx: Ctx):
                         attempt(src, path, lambda g, fld=fld, code=code: (lambda: g.put(code, fld)), {'how': 'falsy-put', 'field': fld, 'code': repr(code)})
                         if isinstance(v, ast.AST) and getattr(v, 'f', None) is not None:
                             attempt(src, path, lambda g, fld=fld, code=code: (lambda: getattr(g, fld).replace(code)), {'how': 'falsy-replace', 'field': fld, 'code': repr(code)})
+    # (c) the ROOT as target: consumed / non-root / unparsable / wrong-kind code
+    for src, mode in (('x = 1\n', 'exec'), ('a + b', 'expr'), ('x = 1', 'stmt'), ('[p, q]', 'pattern')):
+        for what in ('consumed', 'nonroot', 'unparsable', 'none', 'to'):
+            root = fst.FST(src, mode)
+            before = (root.src, ast.dump(root.a, include_attributes=True) if root.a is not None else None)
+            other = fst.FST('[q, r]', 'exec')
+            donor = fst.FST('qq', 'expr')
+            other.body[0].value.elts[0].replace(donor)
+            code = {'consumed': donor, 'nonroot': other.body[0].value.elts[1], 'unparsable': '1 +', 'none': None, 'to': 'zz'}[what]
+            try:
+                root.replace(code, **({'to': root} if what == 'to' else {}))
+                continue
+            except Exception as e:
+                err = e
+            ctx.tick(('root-replace', src, mode, what), 'fault:sweep:root-replace')
+            after = (root.src, ast.dump(root.a, include_attributes=True) if root.a is not None else None)
+            if after != before:
+                ctx.violation(f'mutated|sweep-root-replace|{type(err).__name__}|' + ('source changed' if after[0] != before[0] else 'tree positions/structure changed'),
+                              'a raising edit did not leave the tree exactly as it was', {'src': src, 'mode': mode, 'code': what, 'error': repr(err)[:200], 'src_after': after[0], 'tree_is_none': root.a is None})
     for src in CALL_PROGS:
         probe = fst.FST(src, 'exec')
         for f in probe.walk(True):
